@@ -67,7 +67,7 @@ func prepareWsimObserver(c *prepCtx) error {
 func init() {
 	register(&propDef{
 		ID: "C01", Engine: "wsim", Pkg: "./engines/wsim", Level: "exploration",
-		Runs:        map[string]int{"quick": 4000, "thorough": 400000},
+		Runs:        map[string]int{"quick": 8000, "thorough": 400000},
 		MaxSec:      map[string]float64{"quick": 600, "thorough": 3600},
 		Rule:        "one run = one Wuffs program (hand corpus, or seeded generator) given to the working tree's tokenizer, parser and checker; if ACCEPTED, executed by a reference interpreter under a seeded history of 1-8 public-method calls with boundary-biased arguments; the C01 monitor checks every statement-position value against the compiler's derived range and every index, slice, shift, division, conversion, assignment, argument and return against actual lengths and types",
 		Real:        []string{"lang/token, lang/parse, lang/check of the working tree (the acceptance decision and every MType/MBounds annotation)"},
@@ -76,13 +76,13 @@ func init() {
 	})
 	register(&propDef{
 		ID: "C02", Engine: "wsim", Pkg: "./engines/wsim", Level: "exploration",
-		Runs:        map[string]int{"quick": 6000, "thorough": 600000},
+		Runs:        map[string]int{"quick": 12000, "thorough": 600000},
 		MaxSec:      map[string]float64{"quick": 600, "thorough": 3600},
 		Prepare:     prepareWsimObserver,
 		Rule:        "one run = one Wuffs program (hand corpus; seeded near-miss generator; seeded axiom-instance generator reading lang/check/axioms.md of the working tree) given to the working tree's checker, whose fact list before every statement is recorded through an observer injected at check time; if ACCEPTED, the program is executed by the reference interpreter under a seeded history of public calls on one persistent receiver, and every time execution reaches a statement - every loop iteration, every call - each recorded fact is evaluated in ideal integers on the concrete state and must be true. Facts the evaluator cannot interpret are counted as skipped, never reported",
 		Real:        []string{"lang/token, lang/parse, lang/check of the working tree: the acceptance decision, the fact list at every statement (facts from if/while conditions, assignments, asserts, axioms; fact dropping and rewriting on =, +=, -=, impure calls; if/else reconciliation; loop pre/inv/post)"},
 		Stub:        []string{"the run-time: a tree-walking interpreter over the checked AST in ideal integers (engines/wsim/interp.go)", "the observation point: one call inserted into bcheckBlock through go build -overlay"},
-		Assumptions: []string{"the interpreter shares the front end with the compiler (common-mode)", "coroutines and I/O built-ins are outside the interpreter's subset, so fact invalidation at suspension points is not reached by this check (std/ under engine C reaches the consequences only)"},
+		Assumptions: []string{"the interpreter shares the front end with the compiler (common-mode)", "io_bind/io_limit, =?, iterate, choose and token I/O are outside the interpreter's subset"},
 	})
 	register(&propDef{
 		ID: "C04", Engine: "wsim", Pkg: "./engines/wsim", Level: "exploration",
@@ -92,7 +92,7 @@ func init() {
 		Rule:        "one run = one Wuffs program (operator-stress generator over u8/u16/u32/u64 with modular, saturating, bitwise, shift, division, conversion, min/max/low_bits/high_bits, compound assignment on narrow types, private pure and impure calls, labelled break/continue out of nested loops; the C01 and C02 generators; hand corpus) accepted by the working tree's checker, plus one seeded history of public calls on a persistent receiver. The history is executed by the reference interpreter and by the C that the working tree's wuffs-c generates from the same source, compiled by clang-14 (-O0 with ASan+UBSan, or -O2, drawn) and driven by a generated main() performing exactly the recorded calls; compared: every return value, then every scalar field and array element through appended getters",
 		Real:        []string{"lang/* front end and internal/cgen + cmd/wuffs-c of the working tree (the C is generated at check time), internal/cgen/base (the base library C is generated at check time), clang-14"},
 		Stub:        []string{"the source-level semantics: a tree-walking interpreter in ideal integers (engines/wsim/interp.go)"},
-		Assumptions: []string{"the interpreter is the reference for 'what the source means' (written from the language documentation; shares the front end with the compiler)", "programs for which wuffs-c fails or whose C does not compile give no comparison (counted in the evidence, not reported)", "coroutines, I/O, iterate, choose, SIMD and statuses are outside the interpreter's subset"},
+		Assumptions: []string{"the interpreter is the reference for 'what the source means' (written from the language documentation; shares the front end with the compiler)", "programs for which wuffs-c fails or whose C does not compile give no comparison (counted in the evidence, not reported)", "=?, io_bind/io_limit, iterate, choose, SIMD, token I/O and multi-byte writes are outside the interpreter's subset"},
 		Shrink:      60,
 	})
 }
